@@ -4,7 +4,7 @@ C25 lemmas: auxiliary facts for SwV/Props/C25.lean.
   * `mem_toC17`, `dataOf_of_getElem?`, `le_extent`, `extent_le`   the C17 view of a C25 chunk list
   * `readBack_spec`   every byte `readBack` delivers is `ByteOk` (C17's `readAt_eq_overlay_model`)
   * `byteOk_of_agree`, `byteOk_append_left`, `keysDistinct_toC17`   when `ByteOk` determines the byte
-  * `loop_nofail`, `loop_fails_eq`   what the upload loop produces outside its inline branch
+  * `loop_nofail`, `loop_readErr_nofail`, `loop_fails`   what the upload loop produces outside its inline branch
 -/
 import SwV.Model.C25
 import SwV.Spec.C25
@@ -152,7 +152,7 @@ structure TilesAt (off : Nat) (new : List MChunk) (rest : List Nat) : Prop where
 theorem loop_nofail (cs limit : Nat) (inlineOK etc : Bool) (gen : Nat) (hcs : 0 < cs) :
     ∀ (fuel : Nat) (rest : List Nat) (off : Nat) (acc : List MChunk), rest.length < fuel →
       (rest = [] ∨ off ≠ 0 ∨ inlineOK = false ∨ (etc = false ∧ limit ≤ min cs rest.length)) →
-      ∃ new, uploadLoop cs limit inlineOK etc gen false fuel rest off acc = ⟨acc ++ new, off + rest.length, []⟩ ∧
+      ∃ new, uploadLoop cs limit inlineOK etc gen false fuel rest off acc = ⟨acc ++ new, off + rest.length, [], false⟩ ∧
         TilesAt off new rest := by
   intro fuel
   induction fuel with
@@ -160,7 +160,7 @@ theorem loop_nofail (cs limit : Nat) (inlineOK etc : Bool) (gen : Nat) (hcs : 0 
   | succ fuel ih =>
     intro rest off acc hfuel hni
     unfold uploadLoop
-    simp only [List.length_take, Bool.false_eq_true, false_and, false_or]
+    simp only [List.length_take, Bool.false_eq_true, false_and, if_false]
     by_cases h0 : min cs rest.length = 0
     · have hr : rest = [] := by
         cases rest with
@@ -234,17 +234,38 @@ theorem loop_nofail (cs limit : Nat) (inlineOK etc : Bool) (gen : Nat) (hcs : 0 
             · obtain ⟨c, hc, h1, h2⟩ := ht.cover (q - cs) (by simp only [List.length_drop]; omega)
               exact ⟨c, List.mem_cons_of_mem _ hc, by omega, by omega⟩
 
-/-- a reader that fails after `rest` behaves like an error-free reader of the whole reads before the error -/
-theorem loop_fails_eq (cs limit : Nat) (inlineOK etc : Bool) (gen : Nat) :
-    ∀ (fuel : Nat) (rest : List Nat) (off : Nat) (acc : List MChunk) (j : Nat),
-      j * cs ≤ rest.length → rest.length < (j + 1) * cs →
-      uploadLoop cs limit inlineOK etc gen true fuel rest off acc =
-        uploadLoop cs limit inlineOK etc gen false fuel (rest.take (j * cs)) off acc := by
+/-- an error-free reader never makes the loop remember a read error -/
+theorem loop_readErr_nofail (cs limit : Nat) (inlineOK etc : Bool) (gen : Nat) :
+    ∀ (fuel : Nat) (rest : List Nat) (off : Nat) (acc : List MChunk),
+      (uploadLoop cs limit inlineOK etc gen false fuel rest off acc).readErr = false := by
   intro fuel
   induction fuel with
-  | zero => intro rest off acc j _ _; rfl
+  | zero => intro rest off acc; rfl
   | succ fuel ih =>
-    intro rest off acc j h1 h2
+    intro rest off acc
+    unfold uploadLoop
+    simp only [Bool.false_eq_true, false_and, if_false]
+    split
+    · rfl
+    · split
+      · rfl
+      · split
+        · rfl
+        · exact ih _ _ _
+
+/-- a reader that fails after `rest`, inline branch not taken: the loop behaves like an error-free reader of
+    the whole reads before the error, and ends with the read error remembered -/
+theorem loop_fails (cs limit : Nat) (inlineOK etc : Bool) (gen : Nat) (hcs : 0 < cs) :
+    ∀ (fuel : Nat) (rest : List Nat) (off : Nat) (acc : List MChunk) (j : Nat),
+      rest.length < fuel → j * cs ≤ rest.length → rest.length < (j + 1) * cs →
+      (off ≠ 0 ∨ inlineOK = false ∨ (etc = false ∧ limit ≤ cs) ∨ rest.length < cs) →
+      uploadLoop cs limit inlineOK etc gen true fuel rest off acc =
+        { uploadLoop cs limit inlineOK etc gen false fuel (rest.take (j * cs)) off acc with readErr := true } := by
+  intro fuel
+  induction fuel with
+  | zero => intro rest off acc j hf _ _ _; omega
+  | succ fuel ih =>
+    intro rest off acc j hf h1 h2 hni
     cases j with
     | zero =>
       have hlt : rest.length < cs := by simpa using h2
@@ -256,6 +277,7 @@ theorem loop_fails_eq (cs limit : Nat) (inlineOK etc : Bool) (gen : Nat) :
       have hge : cs ≤ rest.length := by omega
       have hrec := ih (rest.drop cs) (off + cs) (acc ++ [{ off := off, gen := gen, data := rest.take cs }]) j
         (by simp only [List.length_drop]; omega) (by simp only [List.length_drop]; omega)
+        (by simp only [List.length_drop]; omega) (Or.inl (by omega))
       have htt : (rest.take ((j + 1) * cs)).take cs = rest.take cs := by
         rw [List.take_take]; congr 1; omega
       have hdt : (rest.take ((j + 1) * cs)).drop cs = (rest.drop cs).take (j * cs) := by
@@ -264,9 +286,19 @@ theorem loop_fails_eq (cs limit : Nat) (inlineOK etc : Bool) (gen : Nat) :
         simp only [List.length_take]; omega
       have hpl : (rest.take cs).length = cs := by simp only [List.length_take]; omega
       have hnl : ¬ rest.length < cs := by omega
+      have h0 : cs ≠ 0 := by omega
+      have hinl : ¬ (off = 0 ∧ inlineOK = true ∧ (cs < limit ∨ etc = true)) := by
+        rintro ⟨a1, a2, a3⟩
+        rcases hni with h | h | ⟨h, h'⟩ | h
+        · exact h a1
+        · rw [h] at a2; cases a2
+        · rcases a3 with a3 | a3
+          · omega
+          · rw [h] at a3; cases a3
+        · omega
       conv => lhs; unfold uploadLoop
       conv => rhs; unfold uploadLoop
-      simp only [htt, hdt, hpl, hnl, hl1, and_false, false_or, Bool.false_eq_true, false_and, Nat.lt_irrefl, if_false]
+      simp only [htt, hdt, hpl, hnl, hl1, h0, hinl, and_false, Bool.false_eq_true, false_and, Nat.lt_irrefl, if_false]
       rw [hrec]
 
 end SwV.Lemmas.C25
